@@ -109,7 +109,18 @@ def _peer_kexinit(conn):
     deliver(conn, pframe(conn, Byte(20) + body))
 
 
-def send_gate(server: bool, t: int, kexc: bool, authc: bool, authp: bool, used: int) -> bool:
+class _Clock:
+    def __init__(self, now):
+        self.now = now
+
+    def monotonic(self):
+        return self.now
+
+    def time(self):
+        return self.now
+
+
+def send_gate(server: bool, t: int, kexc: bool, authc: bool, authp: bool, used: int, timed: bool, now: int) -> bool:
     """send_packet, one step: while an exchange is in progress nothing but
     transport-control and key-exchange messages is written - everything else
     is appended to the deferred list unchanged, exactly once; with the
@@ -120,12 +131,19 @@ def send_gate(server: bool, t: int, kexc: bool, authc: bool, authp: bool, used: 
     conn._auth_complete = authc
     conn._auth_in_progress = authp
     conn._rekey_bytes_sent = used
+    conn._rekey_seconds = 10 if timed else 0       # time limit armed: next rekey due at t = 5 on the (symbolic) clock
+    conn._rekey_time = 5
     conn._send_kexinit = lambda: (out.wire.append(('KI', b'')), setattr(conn, '_kex_complete', False))
     pre_def = list(conn._deferred_packets)
-    conn.send_packet(t, b'PAYLOAD')
+    saved_time = C.time
+    C.time = _Clock(now)
+    try:
+        conn.send_packet(t, b'PAYLOAD')
+    finally:
+        C.time = saved_time
     written = [w[0] for w in out.wire]
     deferred = conn._deferred_packets[len(pre_def):]
-    rekey = kexc and authc and used >= conn._rekey_bytes
+    rekey = kexc and authc and (used >= conn._rekey_bytes or (timed and now >= 5))
     in_kex = (not kexc) or rekey
     if rekey and written[:1] != ['KI']:
         return False                               # threshold reached: KEXINIT goes first
@@ -296,10 +314,10 @@ def kexinit_reply(server: bool, i0: int, i1: int, i2: int) -> bool:
 
 OBLIGATIONS = [
     Ob('send_gate', send_gate,
-       sym=dict(t=R(0, 255), kexc=B, authc=B, authp=B, used=R(0, 3)),
-       shards=dict(server=[True, False]), timeout=200, pre=[],
+       sym=dict(t=R(0, 255), kexc=B, authc=B, authp=B, used=R(0, 3), timed=B, now=R(0, 9)),
+       shards=dict(server=[True, False], timed=[True, False]), timeout=300, pre=[],
        functions=[C.SSHConnection.send_packet],
-       bounds='every packet type 0..255 x {exchange complete, authenticated, auth in progress} x bytes-sent below/at/above the rekey threshold (threshold 2^30 replaced by 2: used in 0..3)'),
+       bounds='every packet type 0..255 x {exchange complete, authenticated, auth in progress} x bytes-sent below/at/above the rekey threshold (threshold 2: used in 0..3) x time limit armed or not with a symbolic clock 0..9 around the due time 5'),
     Ob('defer_order', defer_order,
        sym=dict(e0=R(0, 5), e1=R(0, 5), e2=R(0, 5), e3=R(0, 5), e4=R(0, 5), e5=R(0, 5), e6=R(0, 5)),
        shards=dict(server=[True], rb=[0, 1, 2], nev=[5], e0=[0, 2, 4], e1=[0, 2, 3, 4], e5=[0], e6=[0]),
@@ -326,5 +344,5 @@ MANIFEST = dict(
          'the wire exactly once and in order, none between our KEXINIT and NEWKEYS; NEWKEYS keeps the session id, switches send keys, stages receive keys '
          'until the peer\'s NEWKEYS, derives both from the new (k,h) with the right letters; three consecutive exchanges with any initiator each get '
          'exactly one KEXINIT from us.',
-    note='Key exchange maths, negotiation and real ciphers are stubbed (C02/C03/C01); time-based thresholds are not driven (byte thresholds only); '
+    note='Key exchange maths, negotiation and real ciphers are stubbed (C02/C03/C01); the time limit is driven with a symbolic clock in the one-step gate obligation only; '
          'in-flight channel data on a real loop is reduced to the order of send_packet calls. Trusted: CrossHair, z3, stubs and oracles in props/C11.py.')
